@@ -30,6 +30,7 @@ RULE = ("populations of 1-30 (CVR, MVR) pairs built with CVR.from_dict / CVR(...
         "tenth of the budget in the quick tier); non-trivial = at least 2 cards "
         "under audit and a phantom, a pooled card, a discrepancy or an error branch; distinct = distinct canonical case")
 EXHAUSTIVE = {"quick": False, "thorough": False}
+RULE += "; option stream (n/10 more cases, own generator, OPTIONS_AUDIT.md): use_style / tally_pools / use_all / prefix / tally_pool / pool left out where they hold their defaults, records and samples by keyword"
 
 CID = "AvB"
 OTHER = "CvD"
